@@ -199,7 +199,9 @@ def _compare_vcr_entry(e: dict, r, rec, sanitize: bool, preserve: bool) -> tuple
     if req.get("method") != r.request.method:
         return "request.method", f"method {req.get('method')!r} != {r.request.method!r}"
     uri = req.get("uri")
-    if uri != r.request.url and not (sanitize and FILTERED in str(uri)):
+    from urllib.parse import unquote as _unq
+
+    if uri != r.request.url and not (sanitize and FILTERED in _unq(str(uri))):
         # same decoded parameters, merely serialised differently (regrouped repeated keys, other percent-encoding)?
         from urllib.parse import parse_qsl, urlsplit
 
